@@ -163,7 +163,8 @@ impl ContinuityStreamCache {
             let _ = fs::create_dir_all(parent);
         }
 
-        let Ok(file) = File::create(&path) else {
+        let tmp_path = path.with_extension("jsonl.tmp");
+        let Ok(file) = File::create(&tmp_path) else {
             return;
         };
         let mut writer = BufWriter::new(file);
@@ -181,7 +182,15 @@ impl ContinuityStreamCache {
             let _ = writer.write_all(b"\n");
             offset = offset.saturating_add(line.len() as u64 + 1);
         }
-        let _ = writer.flush();
+        if writer.flush().is_err() {
+            let _ = fs::remove_file(&tmp_path);
+            return;
+        }
+        drop(writer);
+        if fs::rename(&tmp_path, &path).is_err() {
+            let _ = fs::remove_file(&tmp_path);
+            return;
+        }
 
         let _ = index_builder.write_best_effort(&self.dir, continuity_id);
 
